@@ -274,15 +274,46 @@ def _check_operator(name, op, op2, mask, fails, x64_note=''):
             attempt('filtering jit, second instance of the class', lambda: f(op2, x), e2)
 
 
+def _traced_first(name, op, twin, fails):
+    """the result must not depend on the ORDER of uses either: the first application of this very instance happens under
+    a trace (jit over a closure), then it is applied eagerly, transposed under jit, and traced again with another dtype —
+    state leaked from the first trace (a cached tracer) shows here and nowhere else"""
+    if isinstance(twin, Exception) or twin is None:
+        return
+    x = rand_tree(op.in_structure(), 1)
+    try:
+        ref = twin.mv(x)
+    except Exception:       # noqa: BLE001
+        return
+    steps = [('jit over a closure as FIRST use', lambda: jax.jit(lambda v: op.mv(v))(x), ref),
+             ('eager application after a traced first use', lambda: op.mv(x), ref)]
+    try:
+        y = rand_tree(op.out_structure(), 2)
+        tref = twin.T.mv(y)
+        steps.append(('jit of the transpose after a traced first use', lambda: jax.jit(lambda v: op.T.mv(v))(y), tref))
+    except Exception:       # noqa: BLE001
+        pass
+    for what, f, r in steps:
+        try:
+            d = _close(f(), r)
+        except Exception as e:      # noqa: BLE001
+            fails.append(f'{name}: {what} raises {type(e).__name__}: {str(e)[:90]}')
+            return
+        if d:
+            fails.append(f'{name}: {what} differs from the eager application of a fresh instance ({d})')
+
+
 def jit_eager(w, seed, spec):
     fails = []
     only = spec.get('cls')
     second = dict((n, o) for n, o, _ in instances(seed + 1, only))
+    third = dict((n, o) for n, o, _ in instances(seed, only))            # untouched twins: eager reference for _traced_first
     done = 0
     for name, op, mask in instances(seed, only):
         if isinstance(op, Exception):
             fails.append(f'{name}: cannot be built: {type(op).__name__}: {str(op)[:80]}')
             continue
+        _traced_first(name, op, third.get(name), fails)
         o2 = second.get(name)
         _check_operator(name, op, None if isinstance(o2, Exception) else o2, mask, fails)
         done += 1
